@@ -60,7 +60,10 @@ func avoidFor(prop string) func(hist.Step, *hist.MRunner) string {
 		// Symbolic links: STFS stores a link as a row (name=target, linkname=link path).
 		// Generated links have an existing target and a free link path, and a link path is
 		// afterwards only stat-ed, listed, renamed or removed (DESIGN §6).
-		if s.Op == "symlink" {
+		if prop == "C10" {
+			// C10 judges termination only: links to links, to themselves, to nothing, over
+			// existing names and links as operands of any call are all inputs
+		} else if s.Op == "symlink" {
 			tgt, lnk := mr.M.Get(s.Path), mr.M.Get(s.Path2)
 			par := mr.M.Get(parentOfPath(s.Path2))
 			if tgt == nil || tgt.Kind == "link" || lnk != nil || par == nil || par.Kind != "dir" || hist_clean(s.Path) == hist_clean(s.Path2) {
